@@ -1061,6 +1061,14 @@ def move_imports_to_toplevel(source: str) -> str:
         and not core.has_ignore_comment(source, core.get_charnos(node, source))
     }
 
+    # An import in a try block with handlers is allowed to fail where it is
+    imports_movable_to_toplevel.difference_update(
+        node
+        for try_node in core.walk(root, ast.Try)
+        if try_node.handlers
+        for node in core.walk(ast.Module(body=try_node.body), (ast.Import, ast.ImportFrom))
+    )
+
     if defs := set(
         core.filter_nodes(root.body, (ast.FunctionDef, ast.AsyncFunctionDef, ast.ClassDef))
     ):
